@@ -13,3 +13,21 @@ claim("C11", "Acceptance Booleans of the three proof verifiers equal R_cp / R_sr
 claim("C12", "Reconstructed Fiat-Shamir transcripts: every non-response atom of every proof type (enumerated from the wire form) and every field of every ChallengeInput type reaches the hash; builder/proof and prover/verifier transcripts are identical terms; sink integrity.",
       "Decides: coverage and agreement of transcripts for all 21 ChallengeInput impls, 4 builder/proof pairs, 2 zkAbacus proofs. Not decided: collision resistance of SHA3.",
       "hasher-term reconstruction with loop summaries + type-directed atom enumeration (must-reach-sink)", "5/C12")
+claim("C01", "Exactness of EstablishProof::verify against R_est, Fiat-Shamir coverage of every non-response wire atom, statement binding, payload/initialize provenance, who-may-construct/sign facts.",
+      "Decides: acceptance == R_est (conjunct-for-conjunct), every first-message atom hashed, initialize signs exactly the verified close-state commitment. Not decided: soundness of the Schnorr/ROM argument for R_est (paper argument over the relation shown).",
+      "MIR value reconstruction + BDD/polynomial normal-form identity against an oracle relation; must-reach-sink transcript rule; who-may-construct", "5/C01")
+claim("C02", "Exactness of PayProof::verify against R_pay (incl. both range constraints and the signed balance update), transcript coverage, payload and allow_payment wiring.",
+      "Decides: acceptance == R_pay with equality chains compared by row space; range constraints linked to the new balances; returned commitment is the old-lock proof's. Not decided: cryptographic soundness, token unforgeability.",
+      "MIR value reconstruction with loop-recurrence summaries + normal-form identity against an oracle relation", "5/C02")
+claim("C03", "Typestate by value reconstruction of all customer transitions: verify-then-transition against R_ps on the stage's own message, inert refusal, inductive (signature,state) pairing invariant at every construction site, revocation release discipline.",
+      "Decides the per-step facts for every input (any reply that does not verify on exactly the expected message takes the refusal arm and returns self unchanged); histories follow by induction over transitions. Assumes signature unforgeability and faithful storage (C20).",
+      "typestate / invariant-establishment analysis over reconstructed MIR terms + who-may-call/construct", "5/C03")
+claim("C05", "complete_payment accept condition == R_open on the stored commitment; refusal inert; RevocationPair hash invariant established at every construction site and decode path.",
+      "Decides: token iff opening; every RevocationPair value has lock == from_bytes(SHA3(secret||index)) on the canonical branch. Not decided: hash preimage resistance, Pedersen binding.",
+      "MIR value reconstruction + invariant establishment over all construction sites", "5/C05")
+claim("C13", "Range prover domain/no-panic by intervals for all i64, verifier exactness against R_range with loop recurrences, evaluated constants U^L = 2^63, parameter generation/validation exactness.",
+      "Decides: verifier accepts iff all L digit proofs satisfy R_sp under the parameters' key and sum U^j rs_j == expected; prover refuses iff negative and cannot panic; parameters sign exactly 0..U-1. Not decided: digit-signature unforgeability.",
+      "MIR value reconstruction with loop summaries + interval abstract interpretation", "5/C13")
+claim("C17", "Totality of balance/amount arithmetic by interval + octagon abstract interpretation for all 64-bit inputs, exact Ok/Err regions decided in the octagon domain, exact linear value forms, invariant establishment at every construction site (decoders included).",
+      "Decides: no reachable overflow/abs/cast/unwrap panic; Ok exactly on [0,2^63-1] with the exact result; encoding is the ring map. Uses the Balance invariant only because every construction site is shown to establish it.",
+      "interval + octagon abstract interpretation over reconstructed MIR terms; who-may-construct invariant establishment", "5/C17")
